@@ -611,7 +611,13 @@ def run_case(case: dict) -> dict:
                                         await asyncio.sleep(0)
                                         raise sqlite3.OperationalError("database is locked")
                                     return failing()
-                                if how.get("cancel", "sigint") == "sigint":
+                                # asyncio.run() turns only the FIRST SIGINT of a run into a cancellation of the main task; a second
+                                # one is its force-quit (KeyboardInterrupt raised wherever the main thread is), which is not the
+                                # event meant here: after an earlier SIGINT the cancellation is delivered by Task.cancel()
+                                h_ = signal.getsignal(signal.SIGINT)   # functools.partial(Runner._on_sigint, main_task=...)
+                                runner_ = getattr(getattr(h_, "func", h_), "__self__", None)
+                                first = getattr(runner_, "_interrupt_count", 0) == 0
+                                if how.get("cancel", "sigint") == "sigint" and first:
                                     signal.raise_signal(signal.SIGINT)
                                 else:
                                     main_task.cancel()
